@@ -391,7 +391,8 @@ def _observe(case, src, text, how, eps):
     obs["n1"] = netlist_obs(n1)
     text1 = n1.write_yaml()
     obs["text1"] = text1
-    obs["text1_again"] = n1.write_yaml()      # writing does not change the design it writes
+    obs["text1_again"] = n1.write_yaml()      # the design written a second time ...
+    obs["n1_after"] = netlist_obs(n1)         # ... and as it is after having been written
     try:
         obs["tree1"] = from_py(YAML(typ="safe").load(text1))
     except Exception as e:
